@@ -167,6 +167,12 @@ def monitor (r : Request) (out : LayoutOutput F) (sets : List (Nat × Layout F))
   -- CollapseSound of the container itself (`block_collapse_sound`)
   if out.marginsCanCollapseThrough && toRat out.size.height != 0 then
     return s!"collapse-unsound height {out.size.height}"
+  -- a block may only report collapse-through if every in-flow child did (CSS 2.1 §8.3.1: its margins adjoin only through
+  -- children whose own margins adjoin); a zero-height flex/grid/scroll child never reports it
+  if out.marginsCanCollapseThrough && inputs.runMode == .performLayout then
+    for o in obs do
+      if !o.out.marginsCanCollapseThrough then
+        return s!"collapse-through-over-solid-child child {o.item.nodeIdx}"
   -- stretch-fit width
   for o in obs do
     let it := o.item
